@@ -1338,6 +1338,19 @@ pub fn block_state_kernel() -> String {
         db.commit(m);
         let b = db.basic(z).unwrap();
         out += &format!("[CacheDB::commit touched empty account that did not exist exists={}{}] ", b.is_some(), tag(b.is_some()));
+        // an existing account gets code without being created (EIP-7702 delegation, a state override): the code is answered by hash afterwards
+        for (label, flags) in [("touched", Flags::Touched), ("created", Flags::Touched | Flags::Created)] {
+            let code = Bytecode::new_legacy(Bytes::from_static(&[0x60, 0x2a, 0x00]));
+            let h = code.hash_slow();
+            let with_code = AccountInfo { nonce: 4, balance: U256::from(20), code_hash: h, code: Some(code.clone()) };
+            let mut db = fresh();
+            db.commit(one(with_code, flags, &[]));
+            let by_hash = db.code_by_hash(h).map(|c| c.original_bytes()).unwrap_or_default();
+            let by_ref = revm::DatabaseRef::code_by_hash_ref(&db, h).map(|c| c.original_bytes()).unwrap_or_default();
+            let hash_seen = db.basic(target).unwrap().map(|i| i.code_hash);
+            let ok = by_hash == code.original_bytes() && by_ref == code.original_bytes() && hash_seen == Some(h);
+            out += &format!("[CacheDB::commit {} account with new code code_by_hash_len={} code_by_hash_ref_len={} hash_matches={}{}] ", label, by_hash.len(), by_ref.len(), hash_seen == Some(h), tag(ok));
+        }
     }
 
     // ---- State::code_by_hash: read through, cached afterwards (a later change of the database does not show)
